@@ -23,5 +23,5 @@ def classify(e, part):
 
 
 def run(ctx, replay):
-    subsys.run(ctx, "C10", replay, "Validators", MC, ["valset", "stake", "base", "exodus"], TRACE, corrupt,
+    subsys.run(ctx, "C10", replay, "Validators", MC, ["valset", "stake", "base", "exodus", "allegset"], TRACE, corrupt,
                "seeded histories of stake/unstake/withdraw by three candidate validators around top count 2 and minimum self delegation 3, absent last-commit signers (missed-vote freezes), with a quiet tail of 8-10 blocks (family valset); every update list is applied to a real tendermint ValidatorSet (UpdateWithChangeSet) and TLC evaluates UpdatesWellFormed, PositiveUpdatesJustified and Converges on every block; family exodus lets every validator unstake everything (known finding)", classify=classify)
